@@ -183,7 +183,7 @@ waits for a slot; one lands and frees a slot, the waiting one takes it; all land
 theorem pool_bound_tight (C L : Nat) (hC : 0 < C) (hL : 0 < L) :
     ∃ s, Reach (AStep C L) (Srv.init L) s ∧ s.pool = C + L := by
   -- fill to C-1, admit L in flight
-  have r1 := fill (C := C) (L := L) hL (C - 1) (by omega)
+  have r1 := reach_fill (C := C) (L := L) hL (C - 1) (by omega)
   have r2 : Reach (AStep C L) ⟨C - 1, 0, 0, 0, L, false⟩ ⟨C - 1, L, 0, 0, 0, false⟩ := by
     simpa using admit_many (C := C) (L := L) (C - 1) (by omega) L (Nat.le_refl L)
   -- one more passes the capacity test while no slot is free
